@@ -213,12 +213,27 @@ func serverFields(c *respc.Conn) (map[string]string, error) {
 }
 
 func fileSum(path string) (int64, string) {
-	b, err := os.ReadFile(path)
+	f, err := os.Open(path)
 	if err != nil {
 		return -1, err.Error()
 	}
-	h := sha1.Sum(b)
-	return int64(len(b)), hex.EncodeToString(h[:8])
+	defer f.Close()
+	fi, err := f.Stat()
+	if err != nil {
+		return -1, err.Error()
+	}
+	// large logs (the reference leader's grows with every reseed): length + hash of the tail
+	const tail = 256 * 1024
+	if fi.Size() > 4*tail {
+		if _, err := f.Seek(fi.Size()-tail, io.SeekStart); err != nil {
+			return -1, err.Error()
+		}
+	}
+	h := sha1.New()
+	if _, err := io.Copy(h, f); err != nil {
+		return -1, err.Error()
+	}
+	return fi.Size(), hex.EncodeToString(h.Sum(nil)[:8])
 }
 
 // snapshot is what "nothing changed" is judged on.
